@@ -105,7 +105,7 @@ namespace vf
             return id;
         }
 
-        int cur_node_ = -1, cur_op_ = -1;
+        int cur_node_ = -1, cur_op_ = -1, replay_op_ = -1;
         const char* cur_phase_ = "";
 
         void run(const std::vector<World>& inits)
@@ -201,8 +201,10 @@ namespace vf
         bool replay(const std::vector<World>& inits, const std::string& tr)
         {
             install_crash_handler();
+            // same signature as the exploring run gives a crash: <kind of the operation that was executing>/crash
             crash_hook() = [this, tr](const char* what) {
-                violation(prop + "/" + inst + "/replay/crash", std::string("the process died with ") + what + " while replaying [" + tr + "]", {"--replay", inst, tr});
+                const std::string kind = replay_op_ >= 0 ? ops[size_t(replay_op_)].kind : std::string("init");
+                violation(prop + "/" + inst + "/" + kind + "/crash", std::string("the process died with ") + what + " while replaying [" + tr + "]", {"--replay", inst, tr});
             };
             std::vector<std::string> names;
             size_t p = 0;
@@ -231,6 +233,7 @@ namespace vf
                 for (size_t i = 0; i < ops.size(); ++i) if (ops[i].name == n) oi = int(i);
                 if (oi < 0) { std::printf("replay: unknown operation '%s'\n", n.c_str()); return false; }
                 Errs e;
+                replay_op_ = oi;
                 bool ok = ops[size_t(oi)].f(w, e);
                 if (take_asan()) e.add(san_kind, "AddressSanitizer/UBSan report during the operation");
                 done_so_far += ";" + n;
